@@ -269,8 +269,97 @@ def w_legacy_nano():
     return expect_no_crash(impl, leg, s.keylog, ["-l"])
 
 
-def w_zero_length_cid():
-    return "skip needs the QUIC reference sender"
+def quic_case(seeds, force, meta=False, pick=None):
+    """first seed in `seeds` whose reference connection (dimensions forced) is not exported exactly"""
+    import collections
+    impl, tlsgen, table, _ = env()
+    from lib import quicgen
+    from ref import capgen, readback
+    for seed in seeds:
+        rng = random.Random(seed)
+        h = collections.Counter()
+        s = quicgen.make(rng, h, **force)
+        if pick and not pick(s, h):
+            continue
+        pk = quicgen.packets(s, rng)
+        st, out = impl.run(capgen.to_pcapng(pk), s.keylog, ["-a"] if meta else [])
+        if st != "ok":
+            return "FAILS run ended with %s (seed %d)" % (st, seed)
+        got = []
+        for ts, fr in readback.read_pcapng(out):
+            f = readback.parse_frame(fr)
+            if f["kind"] == "udp" and f["payload"]:
+                got.append((ts, (f["src"], f["sport"]) == (s.server.ip, s.server.port), bytes(f["payload"])))
+        exp = quicgen.expected(s, pk, meta)
+        if got != exp:
+            return "FAILS reference connection (seed %d, %s): %d datagrams exported, %d carried stream data" % (seed, force, len(got), len(exp))
+    return "ok every reference connection exported exactly (%d seeds, %s)" % (len(seeds), force)
+
+
+def w_zero_length_client_cid():
+    return quic_case(range(5), dict(early=False, retry=False, client_cid_len=0, server_cid_len=8, key_updates=0))
+
+
+def w_crypto_out_of_order():
+    return quic_case(range(12), dict(early=False, retry=False, client_cid_len=8, server_cid_len=8, key_updates=0, ch_pieces=4, ch_shuffle=1))
+
+
+def w_both_cids_empty():
+    return quic_case(range(5), dict(early=False, retry=False, client_cid_len=0, server_cid_len=0, key_updates=0))
+
+
+def w_pn_after_failed_decrypt():
+    return quic_case(range(40), dict(early=True, offered="last", retry=False), pick=lambda s, h: True) if False else w_pn_known()
+
+
+def w_pn_known():
+    # 0-RTT under a suite that is not offered first fails to decrypt (open finding); before the fix its garbage packet number also
+    # broke every later 1-RTT packet of the client: more than the 0-RTT datagrams is missing
+    import collections
+    impl, tlsgen, table, _ = env()
+    from lib import quicgen
+    from ref import capgen, readback
+    worst = None
+    for seed in range(30):
+        rng = random.Random(seed)
+        s = quicgen.make(rng, collections.Counter(), early=True, offered="last", retry=False)
+        pk = quicgen.packets(s, rng)
+        st, out = impl.run(capgen.to_pcapng(pk), s.keylog, [])
+        got = [bytes(readback.parse_frame(fr)["payload"]) for ts, fr in readback.read_pcapng(out)] if st == "ok" else []
+        c = s.conn
+        sh = next(i for i, d in enumerate(c.datagrams) if d["isserver"] and d["crypto"])
+        late_client = [b"".join(d["stream"]) for i, d in enumerate(c.datagrams) if i > sh and not d["isserver"] and d["stream"]]
+        missing = [x for x in late_client if x and x not in got]
+        if missing:
+            return "FAILS seed %d: %d client datagram(s) sent AFTER the handshake are missing from the export (1-RTT packets expanded against a bogus largest packet number)" % (seed, len(missing))
+    return "ok client 1-RTT data after an undecryptable 0-RTT packet is exported (30 connections)"
+
+
+def w_short_cid_direction():
+    impl, *_ = env()
+    from ref import readback
+    c = json.load(open("/verif/findings/C02-short-cid-direction.capture.json"))
+    st, out = impl.run(bytes.fromhex(c["capture"]), c["keylog"], c["args"])
+    if st != "ok":
+        return "FAILS " + st
+    got = []
+    for ts, fr in readback.read_pcapng(out):
+        f = readback.parse_frame(fr)
+        if f["kind"] == "udp" and f["payload"]:
+            got.append([ts, f["sport"] == c["server_port"] and f["src"].hex() == c["server_ip"], bytes(f["payload"]).hex()])
+    return "ok all %d datagrams exported exactly" % len(got) if got == c["expected"] else "FAILS %d datagrams exported, %d carried stream data (client connection ID of 1 byte, server's empty)" % (len(got), len(c["expected"]))
+
+
+def w_short_cid_other_connection():
+    impl, *_ = env()
+    from ref import readback
+    r = json.load(open("/verif/findings/C04-short-cid-cross-connection.capture.json"))
+    cap, keylog = bytes.fromhex(r["capture"]), r["keylog"]
+    st, out = impl.run(cap, keylog, [])
+    if st != "ok":
+        return "FAILS " + st
+    n = len(readback.read_pcapng(out))
+    return ("ok %d packets exported" % n) if n == r["expected_packets"] else "FAILS %d packets exported, the four connections exported one by one give %d" % (n, r["expected_packets"])
 
 
 W = {  # name: (property, commit, tag, function, one-line description)
@@ -293,6 +382,12 @@ W = {  # name: (property, commit, tag, function, one-line description)
     "p-twice": ("C10", "e30fefb", "p-repeated", w_p_twice, "-p 8443 -p 9443 watched only port 9443"),
     "two-runs-one-process": ("C18", "3a52df3", "module-state", w_two_runs, "a second run() in the same process re-exported the first run's sessions"),
     "short-dsb": ("C09", "6585d98", "dsb-as-frame", w_short_dsb, "a decryption secrets block shorter than an Ethernet header raised dpkt.NeedData"),
+    "quic-zero-length-client-cid": ("C02", "f550ee5", "quic-zero-cid", w_zero_length_client_cid, "a zero-length client connection ID made every short-header datagram match with the wrong direction"),
+    "quic-crypto-out-of-order": ("C02", "7eea00a", "quic-crypto-order", w_crypto_out_of_order, "ClientHello split over CRYPTO frames arriving out of order was never completed: nothing exported"),
+    "quic-both-cids-empty": ("C02", "4723289", "quic-empty-cids-direction", w_both_cids_empty, "both endpoints with zero-length connection IDs: every packet taken for a client packet"),
+    "quic-pn-after-failed-decrypt": ("C02", "c34e00a", "quic-pn-commit", w_pn_known, "a packet that failed to decrypt advanced the largest packet number: later 1-RTT packets lost"),
+    "quic-short-cid-direction": ("C02", "20fd46b", "quic-short-cid-direction", w_short_cid_direction, "1-byte connection IDs: datagrams matched the peer's ID by chance and were taken for the opposite direction"),
+    "quic-short-cid-other-connection": ("C04", "b38f70d", "quic-short-cid-cross", w_short_cid_other_connection, "a datagram matched the short connection ID of another connection's session and was lost for its own"),
     "legacy-nanosecond-pcap": ("C12", "7467fb4", "legacy-ns", w_legacy_nano, "legacy pcap with nanosecond magic: TypeError in the writer"),
 }
 
